@@ -120,8 +120,15 @@ class Ch:
         F("len")
         return 2
 
+    def keys(self):
+        # mapping protocol for **obj / {**obj}: a plain Ch has keys() + __getitem__ only (dict() fallback in compiled code)
+        F("keys")
+        return ["k", "m"]
+
     def __getitem__(self, k):
         F("getitem")
+        if isinstance(k, str):
+            return Ch(self.v + 20)
         if isinstance(k, slice):
             return Ch(self.v + 100)
         if isinstance(k, int) and not (0 <= k < 2):
@@ -169,7 +176,7 @@ class Ch:
         return Ch(self.v + len(a) + len(k))
 
     def __getattr__(self, name):
-        if name.startswith("__"):
+        if name.startswith("__") or name == "items":
             raise AttributeError(name)
         F("getattr")
         return Ch(self.v + 1000)
@@ -181,6 +188,14 @@ class Ch:
     def __exit__(self, t, v, tb):
         F("exit")
         return False
+
+
+class ChM(Ch):
+    """A Ch that is also a full mapping (has items()): takes the items()-iteration path of **-merging in compiled code."""
+
+    def items(self):
+        F("items")
+        return [("k", Ch(self.v + 30)), ("m", Ch(self.v + 31))]
 
 
 def keys_of(d):
